@@ -168,6 +168,7 @@ structure Glyph where
   adv : Rat
   bbox : Rect
   size : Rat
+  upright : Bool
   font : String
   col : Option Color
   deriving Repr, DecidableEq, Inhabited
